@@ -27,6 +27,8 @@ pub(crate) trait ErasedVariable: Debug + NotObserver + KindTrait {
     fn id(&self) -> NodeId;
     fn break_rc_cycle(&self);
     fn set_at(&self) -> StabilisationNum;
+    #[cfg(cormacrelf_incremental_rs_verif)]
+    fn verif_info(&self) -> String;
 }
 
 impl<T: Value> ErasedVariable for Var<T> {
@@ -46,6 +48,15 @@ impl<T: Value> ErasedVariable for Var<T> {
     }
     fn set_at(&self) -> StabilisationNum {
         self.set_at.get()
+    }
+    #[cfg(cormacrelf_incremental_rs_verif)]
+    fn verif_info(&self) -> String {
+        format!(
+            "Var(set_at={},pending={},value={:?})",
+            self.set_at.get().0,
+            if self.value_set_during_stabilisation.borrow().is_some() { 1 } else { 0 },
+            self.value.borrow()
+        )
     }
 }
 
